@@ -19,6 +19,7 @@ import (
 	"io"
 	"net"
 	"os"
+	"runtime"
 	"strconv"
 	"strings"
 	"sync"
@@ -157,6 +158,14 @@ type Case struct {
 	// WithTimeout(one hour) nested in a cancellable parent, the parent is cancelled; 'n'
 	// WithDeadline(near): the harness waits at the cancellation point until it has expired.
 	Ctx byte
+	// ErrKind: what kind of error value the injected failures (failing reads and writes, failing
+	// List / Parse / Negotiate callbacks) return, see ErrKinds; 0 = a plain errors.New value.
+	ErrKind byte
+	// Raw: the library is handed a plain io.ReadWriter (no deadline methods, not a net.Conn)
+	// instead of a net.Conn: the context watcher has nothing to act on (Oracle.dlRd = dlWr =
+	// false in the model), everything else must hold all the same. Not combined with blocking
+	// operations (nothing could end them).
+	Raw bool
 	// Block: a read at the end of the script blocks until the connection's deadline passes
 	// (what a silent peer looks like on a transport with deadlines) instead of returning EOF.
 	Block bool
@@ -254,6 +263,12 @@ func (c Case) Line(r Result) string {
 	if c.Ctx != 0 && c.Ctx != 'c' {
 		flags += "k" + string(c.Ctx)
 	}
+	if c.ErrKind != 0 {
+		flags += "e" + string(c.ErrKind)
+	}
+	if c.Raw {
+		flags += "r"
+	}
 	return fmt.Sprintf("run %d %s %s %s %s %s", c.St0, flags, EncCfg(c.Cfg), EncScript(r.Script), common.Join(r.Picks, ","), c.Fault)
 }
 
@@ -266,6 +281,65 @@ var (
 	errFault = errors.New("harness: injected connection fault")
 	errCB    = errors.New("harness: scripted callback error")
 )
+
+// ErrKinds are the kinds of error value an injected failure can return besides a plain
+// errors.New value. What the property demands does not depend on the kind ("an error reported by
+// any step is never swallowed"), so the model does not see it; the code under test may well
+// look at it (errors.As(net.Error), Timeout(), errors.Is(context.DeadlineExceeded), == io.EOF ...).
+//
+//	T  a net.Error with Timeout() and Temporary() true that wraps os.ErrDeadlineExceeded (what a
+//	   connection returns when a deadline set by the caller, or the transport itself, times out)
+//	X  a net.Error with Temporary() true only
+//	N  *net.OpError wrapping net.ErrClosed
+//	U  io.ErrUnexpectedEOF (wrapped)
+//	D  context.DeadlineExceeded itself - although the context of the call is alive
+//	C  context.Canceled itself - although the context of the call is alive
+//	E  io.EOF itself
+var ErrKinds = []byte{'T', 'X', 'N', 'U', 'D', 'C', 'E'}
+
+// kindErr wraps a base error and adds the methods / identities of its kind.
+type kindErr struct {
+	base error
+	kind byte
+}
+
+func (e kindErr) Error() string   { return e.base.Error() + " (kind " + string(e.kind) + ")" }
+func (e kindErr) Unwrap() error   { return e.base }
+func (e kindErr) Timeout() bool   { return e.kind == 'T' }
+func (e kindErr) Temporary() bool { return e.kind == 'T' || e.kind == 'X' }
+func (e kindErr) Is(target error) bool {
+	switch e.kind {
+	case 'T':
+		return target == os.ErrDeadlineExceeded
+	case 'U':
+		return target == io.ErrUnexpectedEOF
+	}
+	return false
+}
+
+// wrapBase lets errors.Is find the harness's base error below a *net.OpError.
+type wrapBase struct{ base, also error }
+
+func (w wrapBase) Error() string   { return w.also.Error() + ": " + w.base.Error() }
+func (w wrapBase) Unwrap() []error { return []error{w.base, w.also} }
+
+// InjErr is the error value an injected failure of the given kind returns. The kinds D, C, E
+// are the sentinel values themselves (code may compare with ==), the others wrap base.
+func InjErr(kind byte, base error) error {
+	switch kind {
+	case 0:
+		return base
+	case 'N':
+		return &net.OpError{Op: "read", Net: "mem", Err: wrapBase{base, net.ErrClosed}}
+	case 'D':
+		return context.DeadlineExceeded
+	case 'C':
+		return context.Canceled
+	case 'E':
+		return io.EOF
+	}
+	return kindErr{base, kind}
+}
 
 // faultSpec is the decoded `fault` field: `/`-separated parts `k` / `k+` (failing operations),
 // `Cn` (cancel after n events), `CB` (cancel as soon as an operation blocks), `Hk` (operation k
@@ -344,6 +418,31 @@ type runState struct {
 	pastR     chan struct{} // closed when a read deadline in the past has been set
 	pastW     chan struct{}
 	gaveUp    map[bool]bool
+
+	cbInjected bool // a callback returned its injected error
+	// dead: Exec has given the run up (watchdog). The library goroutine may still be running -
+	// a mutated selection loop can spin for ever without touching the connection - so every
+	// further call into the harness (Read, Write, a callback) ends that goroutine.
+	dead    bool
+	runaway bool // more than maxEvents events: the library is in a loop that does not end
+}
+
+// maxEvents bounds the events of one run: a legitimate run has a few dozen; a run that passes this
+// bound is a loop that does not end (reported as a stall, like a call that never returns).
+const maxEvents = 5000
+
+// abandoned ends the calling goroutine when the run has been given up or has run away (r.mu not
+// held).
+func (r *runState) abandoned() {
+	r.mu.Lock()
+	if len(r.events) > maxEvents {
+		r.dead, r.runaway = true, true
+	}
+	d := r.dead
+	r.mu.Unlock()
+	if d {
+		runtime.Goexit()
+	}
 }
 
 // add records an event (r.mu held) and cancels the context when the case asks for it.
@@ -433,6 +532,12 @@ func (r *runState) state() uint8 {
 
 type conn struct{ r *runState }
 
+// rawRW hides everything but Read and Write of the scripted connection.
+type rawRW struct {
+	io.Reader
+	io.Writer
+}
+
 type addr struct{}
 
 func (addr) Network() string { return "mem" }
@@ -447,6 +552,7 @@ func (c conn) SetWriteDeadline(t time.Time) error { c.r.setDeadline(t, false, tr
 
 func (c conn) Read(p []byte) (int, error) {
 	r := c.r
+	r.abandoned()
 	r.mu.Lock()
 	defer r.mu.Unlock()
 	if len(r.rest) > 0 {
@@ -459,7 +565,7 @@ func (c conn) Read(p []byte) (int, error) {
 	st := r.state()
 	if r.fault.at(idx) {
 		r.add(Event{Kind: "R", Res: "fault", St: st})
-		return 0, errFault
+		return 0, InjErr(r.cs.ErrKind, errFault)
 	}
 	if r.expired(false, 300*time.Millisecond) {
 		r.add(Event{Kind: "R", Res: "fault", St: st})
@@ -504,6 +610,7 @@ func (c conn) Read(p []byte) (int, error) {
 
 func (c conn) Write(p []byte) (int, error) {
 	r := c.r
+	r.abandoned()
 	r.mu.Lock()
 	defer r.mu.Unlock()
 	idx := r.ops
@@ -513,7 +620,7 @@ func (c conn) Write(p []byte) (int, error) {
 	if r.fault.at(idx) {
 		e.Res = "fault"
 		r.add(e)
-		return 0, errFault
+		return 0, InjErr(r.cs.ErrKind, errFault)
 	}
 	if r.expired(true, 300*time.Millisecond) {
 		e.Res = "fault"
@@ -674,11 +781,22 @@ func render(it Item, pos int, server, s2s, ws bool) []byte {
 	return []byte(`zz<y xmlns='urn:y'/>`)
 }
 
-func classifyErr(err error) string {
+// cbErr is the error a failing callback of this run returns (and notes that one was returned:
+// the sentinel kinds cannot carry the harness's marker).
+func (r *runState) cbErr() error {
+	r.mu.Lock()
+	r.cbInjected = true
+	r.mu.Unlock()
+	return InjErr(r.cs.ErrKind, errCB)
+}
+
+func classifyErr(err error, cbSentinel ...error) string {
 	switch {
 	case err == nil:
 		return "done"
 	case errors.Is(err, errCB):
+		return "fail:cb"
+	case len(cbSentinel) == 1 && cbSentinel[0] != nil && errors.Is(err, cbSentinel[0]):
 		return "fail:cb"
 	case errors.Is(err, errFault), errors.Is(err, io.EOF), errors.Is(err, io.ErrUnexpectedEOF),
 		errors.Is(err, context.Canceled), errors.Is(err, context.DeadlineExceeded), errors.Is(err, os.ErrDeadlineExceeded):
@@ -704,11 +822,12 @@ func (r *runState) features() []xmpp.StreamFeature {
 			Necessary:  xmpp.SessionState(b.Nec),
 			Prohibited: xmpp.SessionState(b.Proh),
 			List: func(ctx context.Context, e xmlstream.TokenWriter, start xml.StartElement) (bool, error) {
+				r.abandoned()
 				r.mu.Lock()
 				r.add(Event{Kind: "L", F: i, St: r.state()})
 				r.mu.Unlock()
 				if b.ListErr {
-					return b.ListReq, errCB
+					return b.ListReq, r.cbErr()
 				}
 				if err := e.EncodeToken(start); err != nil {
 					return b.ListReq, err
@@ -722,6 +841,7 @@ func (r *runState) features() []xmpp.StreamFeature {
 						req = true
 					}
 				}
+				r.abandoned()
 				r.mu.Lock()
 				r.add(Event{Kind: "P", F: i, St: r.state(), Req: req})
 				r.mu.Unlock()
@@ -729,7 +849,7 @@ func (r *runState) features() []xmpp.StreamFeature {
 					return req, nil, err
 				}
 				if b.ParseErr {
-					return req, nil, errCB
+					return req, nil, r.cbErr()
 				}
 				return req, i, nil
 			},
@@ -738,6 +858,7 @@ func (r *runState) features() []xmpp.StreamFeature {
 			f.Negotiate = func(ctx context.Context, s *xmpp.Session, data interface{}) (xmpp.SessionState, io.ReadWriter, error) {
 				st := uint8(s.State())
 				srv := st&Received != 0
+				r.abandoned()
 				r.mu.Lock()
 				r.add(Event{Kind: "N", F: i, St: st, Srv: srv})
 				r.mu.Unlock()
@@ -764,7 +885,7 @@ func (r *runState) features() []xmpp.StreamFeature {
 					}
 				}
 				if b.NegErr {
-					return xmpp.SessionState(b.Mask), rw, errCB
+					return xmpp.SessionState(b.Mask), rw, r.cbErr()
 				}
 				return xmpp.SessionState(b.Mask), rw, nil
 			}
@@ -785,6 +906,11 @@ func Exec(cs Case) Result {
 	ctx, fire, release := MakeCtx(cs.Ctx)
 	defer release()
 	r.cancel = fire
+	var rw io.ReadWriter = conn{r}
+	if cs.Raw {
+		rw = rawRW{conn{r}, conn{r}}
+		r.gaveUp[false], r.gaveUp[true] = true, true
+	}
 	r.mu.Lock()
 	r.maybeCancel()
 	r.mu.Unlock()
@@ -828,9 +954,9 @@ func Exec(cs Case) Result {
 		if cs.Custom != nil {
 			out.s, out.err = cs.Custom(ctx, conn{r})
 		} else if r.server {
-			out.s, out.err = xmpp.ReceiveSession(ctx, conn{r}, xmpp.SessionState(cs.St0), neg)
+			out.s, out.err = xmpp.ReceiveSession(ctx, rw, xmpp.SessionState(cs.St0), neg)
 		} else {
-			out.s, out.err = xmpp.NewSession(ctx, location, origin, conn{r}, xmpp.SessionState(cs.St0), neg)
+			out.s, out.err = xmpp.NewSession(ctx, location, origin, rw, xmpp.SessionState(cs.St0), neg)
 		}
 	}()
 	res := Result{}
@@ -841,11 +967,21 @@ func Exec(cs Case) Result {
 		res.Events = append([]Event(nil), r.events...)
 		res.Script = r.script
 		switch {
+		case r.runaway:
+			atomic.StoreInt32(&aborted, 1)
+			res.Events = res.Events[:200]
+			res.Outcome, res.Err = "STALL", fmt.Sprintf("more than %d events: a loop that does not end", maxEvents)
+			res.State = cs.St0
+			NoteStall()
 		case out.panic != "":
 			res.Outcome, res.Err = "PANIC", out.panic
 			res.State = r.state()
 		default:
-			res.Outcome = classifyErr(out.err)
+			var sentinel error
+			if r.cbInjected && (cs.ErrKind == 'D' || cs.ErrKind == 'C' || cs.ErrKind == 'E') {
+				sentinel = InjErr(cs.ErrKind, nil)
+			}
+			res.Outcome = classifyErr(out.err, sentinel)
 			if out.err != nil {
 				res.Err = out.err.Error()
 			}
@@ -862,7 +998,15 @@ func Exec(cs Case) Result {
 		res.Script = append([]Item(nil), r.script...)
 		res.Outcome = "STALL"
 		res.State = cs.St0
+		r.dead = true
 		NoteStall()
+		if fs.block < 0 && !cs.Block && !fs.cancel && !fs.cancelB {
+			// nothing in this case blocks or is cancelled: the library is spinning or wedged on its own. Its
+			// goroutine cannot be stopped and may allocate without bound (a retry loop around a
+			// sticky encoder error grew to 30 GB within two minutes): the failing input is
+			// recorded, the generators stop here.
+			atomic.StoreInt32(&aborted, 1)
+		}
 	}
 	for _, e := range res.Events {
 		if e.Kind == "N" && !e.Srv {
@@ -893,6 +1037,10 @@ func ParseLine(line string) (Case, error) {
 	if i := strings.Index(f[2], "k"); i >= 0 && i+1 < len(f[2]) {
 		cs.Ctx = f[2][i+1]
 	}
+	if i := strings.Index(f[2], "e"); i >= 0 && i+1 < len(f[2]) {
+		cs.ErrKind = f[2][i+1]
+	}
+	cs.Raw = strings.Contains(f[2], "r")
 	if f[3] != "-" {
 		for _, s := range strings.Split(f[3], ";") {
 			p := strings.Split(s, ":")
@@ -1008,7 +1156,12 @@ var CtxKinds = []byte{'c', 'd', 'p', 'n'}
 // path still ends in minutes. A run without stalls never skips anything.
 const StallBudget = 24
 
-var stalls, stallSkipped int32
+var stalls, stallSkipped, aborted int32
+
+// Aborted reports that a run of the library did not end although nothing blocked it; the
+// generators skip everything after that (Emitter.Do returns an empty Result with Outcome
+// "SKIPPED").
+func Aborted() bool { return atomic.LoadInt32(&aborted) != 0 }
 
 // NoteStall records one observed stall.
 func NoteStall() { atomic.AddInt32(&stalls, 1) }
